@@ -65,6 +65,7 @@ type Function struct {
 type sequence struct {
 	next     int64
 	isCalled bool
+	cache    int64 // CACHE option: values preallocated per session and per access (<= 1: none)
 }
 
 type txStatus struct {
@@ -231,6 +232,43 @@ func (db *DB) setval(name string, v int64, isCalled bool) {
 	s.next, s.isCalled = v, isCalled
 }
 
+// Session-level sequence access.  CREATE SEQUENCE ... CACHE n (PostgreSQL documentation, CREATE SEQUENCE, Notes; sequence.c
+// nextval_internal / do_setval): with n > 1 EACH SESSION that calls nextval allocates n successive values during one access to the
+// sequence object and advances the sequence's last_value accordingly; its next n-1 calls return the preallocated values without
+// touching the sequence object, so "the values might be generated out of sequence when all the sessions are considered".
+// setval discards only the calling session's preallocated values ("forget any future cached numbers"); other sessions do not
+// notice it until they have used up theirs.  Values left in a session's cache when it ends are lost.  With n = 1 (the default)
+// this is the plain shared counter.
+type seqCache struct{ cur, last int64 }
+
+func (s *Session) nextval(name string) int64 {
+	db := s.db
+	sq := db.seqs[name]
+	if sq == nil {
+		panic(errf("42P01", "sequence %q does not exist", name))
+	}
+	if sq.cache <= 1 {
+		return db.nextval(name)
+	}
+	if c := s.seqCached[name]; c != nil && c.cur < c.last {
+		c.cur++
+		return c.cur
+	}
+	first := db.nextval(name)
+	sq.next = first + sq.cache - 1 // last_value now covers the whole preallocated batch
+	if s.seqCached == nil {
+		s.seqCached = map[string]*seqCache{}
+	}
+	s.seqCached[name] = &seqCache{cur: first, last: sq.next}
+	db.Stats["sequence_batches"]++
+	return first
+}
+
+func (s *Session) setval(name string, v int64, isCalled bool) {
+	s.db.setval(name, v, isCalled)
+	delete(s.seqCached, name)
+}
+
 // ---------------------------------------------------------------- sessions / transactions
 type undoRec func()
 
@@ -265,6 +303,7 @@ type Session struct {
 	// detects deadlock situations and resolves them by aborting one of the transactions involved"). Which transaction is
 	// aborted is timing dependent in PostgreSQL; here the scheduler decides.
 	DeadlockVictim bool
+	seqCached      map[string]*seqCache // values of CACHE n sequences preallocated by this session
 }
 
 // Xid is the id of the session's open transaction (0 when none).
@@ -681,7 +720,7 @@ func (ex *Exec) runTop(st Stmt) *Result {
 		ex.withSchema(n.Schema, func() { ex.callFunction(fn, args) })
 		return &Result{Tag: "CALL"}
 	case *CreateSequence:
-		ex.db.seqs[ex.sch(n.Schema)+"."+n.Name] = &sequence{next: 1}
+		ex.db.seqs[ex.sch(n.Schema)+"."+n.Name] = &sequence{next: 1, cache: n.Cache}
 		return &Result{Tag: "CREATE SEQUENCE"}
 	case *CreateTrigger:
 		t := ex.db.table(ex.sch(n.Schema), n.Table)
